@@ -141,7 +141,9 @@ deriving Repr, DecidableEq
 
 /-- the decoder and the image handler as seen by `poll` -/
 structure Dec (ε σ : Type) where
-  /-- decode one chunk: new decoder state, events in order -/
+  /-- decode one chunk: new decoder state, events in order.  Total: the Rust loop's `decoder.decode(..)?` would leave
+  `poll` on a decoder error and drop the rest of the read buffer; `SurfProofs.C17Link` shows that the production
+  tokenizer never takes that path (C02 / C03) -/
   feed : σ → List Nat → σ × List ε
   /-- `TerminalEvent::Size(_)` -/
   isSize : ε → Bool
